@@ -677,26 +677,34 @@ func genRing(ctx *core.Ctx) {
 			_, p := m.step(o)
 			return !p
 		}
+		nonNil := func() []int {
+			var nn []int
+			for i := 0; i < nregs; i++ {
+				if m.g[i] != nil {
+					nn = append(nn, i)
+				}
+			}
+			return nn
+		}
 		pickRecv := func() int {
-			// prefer a non-nil variable (9 in 10)
-			if !r.Chance(1, 10) {
-				var nn []int
-				for i := 0; i < nregs; i++ {
-					if m.g[i] != nil {
-						nn = append(nn, i)
-					}
-				}
-				if len(nn) > 0 {
-					return nn[r.Intn(len(nn))]
-				}
+			// a non-nil variable, except once in 150 (a nil receiver panics and ends the program)
+			if nn := nonNil(); len(nn) > 0 && !r.Chance(1, 150) {
+				return nn[r.Intn(len(nn))]
 			}
 			return r.Intn(nregs)
 		}
 		alive := true
 		for alive && len(prog) < n {
-			switch x := r.Intn(100); {
+			x := r.Intn(100)
+			if len(nonNil()) == 0 && !r.Chance(1, 20) {
+				x = 0 // nothing to operate on yet: make a ring first
+			}
+			switch {
 			case x < 12:
 				d, sz := r.Intn(nregs), r.Range(-1, 5)
+				if r.Chance(3, 4) {
+					sz = r.Range(1, 5)
+				}
 				if r.Chance(2, 3) {
 					for _, o := range buildRing(d, sz, label) {
 						alive = alive && emit(o)
